@@ -195,6 +195,22 @@ def run(ctx):
             interfering = r.state_dump
         elif r.violation is None:
             raise vf.Infra("ObjectsPar_mc %s: shared cells %s but no interference found" % (what, live))
+    # 2b. objects the caller has related (byte copies, arena neighbours): module ObjectsRel
+    rel = [("related objects: separate blocks", "ObjectsRel_mc_none.cfg", None), ("related objects: byte copy", "ObjectsRel_mc_copy.cfg", None),
+           ("related objects: arena neighbours", "ObjectsRel_mc_adjacent.cfg", None),
+           ("witness: copy of an object that stores an absolute pointer", "ObjectsRel_mc_w_ptr.cfg", "NonInterference"),
+           ("witness: a call clears cells past its own size, neighbour behind", "ObjectsRel_mc_w_over.cfg", "NonInterference")]
+
+    def one_rel(x):
+        what, cfg, expect = x
+        return x, vf.tlc("ObjectsRel_mc", cfg, workers=2, timeout=600, heap="2g", tag="ObjectsRel_" + cfg)
+    for (what, cfg, expect), r in vf.parallel(one_rel, rel, nproc=5):
+        if r.error:
+            raise vf.Infra("ObjectsRel_mc %s: %s" % (what, r.error))
+        ctx.add_tlc(r, "mc ObjectsRel_mc (%s)" % what)
+        vf.log("[mc] %-66s distinct=%d %s (%.1fs)" % (what, r.distinct, "OK" if r.ok else "VIOLATED " + str(r.violation), r.wall))
+        if r.violation != expect:
+            raise vf.Infra("ObjectsRel_mc %s: expected %s, TLC said %s\n%s" % (what, expect, r.violation, (r.state_dump or "")[:1200]))
     if live:
         detail = []
         for c in inv["cells"]:
@@ -260,7 +276,7 @@ def replay(ctx):
 
 
 META = dict(
-    engine="ObjectsPar+ParTrace",
+    engine="ObjectsPar+ObjectsRel+ParTrace",
     technique=("TLA+ model of processes owning codec objects with the library's writable global cells as a constant taken from a symbol/section inventory of the built archive; "
                "TLC exhaustive over all program assignments and interleavings; concurrent executions of the real library (threads started together incl. first creation) judged "
                "by TLC against solo executions; ThreadSanitizer as monitor in the thorough tier"),
